@@ -98,6 +98,18 @@ REF_LOCALS = {"entity", "activity", "trigger", "informed", "informant", "starter
               "alternate1", "alternate2", "bundle", "influencee", "influencer", "collection"}
 
 
+# element convenience methods: relation kind -> (class of the subject element, method name)
+CONVENIENCE = {
+    "generation": ("entity", "wasGeneratedBy"), "invalidation": ("entity", "wasInvalidatedBy"),
+    "derivation": ("entity", "wasDerivedFrom"), "attribution": ("entity", "wasAttributedTo"),
+    "alternate": ("entity", "alternateOf"), "specialization": ("entity", "specializationOf"),
+    "membership": ("entity", "hadMember"), "usage": ("activity", "used"),
+    "communication": ("activity", "wasInformedBy"), "start": ("activity", "wasStartedBy"),
+    "end": ("activity", "wasEndedBy"), "association": ("activity", "wasAssociatedWith"),
+    "delegation": ("agent", "actedOnBehalfOf"),
+}
+
+
 def create(kind, path, rrep, trep, mask):
     """returns (doc, record, model dict attr-uri -> value obs)"""
     doc = ProvDocument()
@@ -117,7 +129,15 @@ def create(kind, path, rrep, trep, mask):
     ident = None if kind in ("specialization", "alternate", "mention", "membership") else "ex:r"
     if kind in ("entity", "agent", "activity"):
         ident = "ex:r"
-    if path == "factory":
+    if path == "convenience":
+        # the subject is an element of the document; its method creates the (anonymous) relation
+        ecls, meth = CONVENIENCE[kind]
+        subj = getattr(doc, ecls)("ex:v0")
+        back = getattr(subj, meth)(*vals[1:])
+        if back is not subj:
+            raise AssertionError("convenience method did not return its element")
+        rec = list(doc.get_records())[-1]
+    elif path == "factory":
         if kind in ("entity", "agent"):
             rec = getattr(doc, kind)(ident)
         elif kind == "activity":
@@ -493,6 +513,14 @@ def record_items(tier):
                         continue
                     for mask in masks:
                         items.append((kind, path, rrep, trep, mask))
+        if kind in CONVENIENCE:
+            for rrep in REF_REPRS:
+                for trep in TIME_REPRS:
+                    if trep == "iso" and not any(f in TIME_ATTRS for f in formals):
+                        continue
+                    for mask in masks:
+                        if mask[0]:
+                            items.append((kind, "convenience", rrep, trep, mask))
     return items
 
 
@@ -520,7 +548,7 @@ def main(tier, seed):
         "traces_validated_against_impl": out.conform,
         "evaluations": out.evaluations,
         "distinct_nontrivial": out.nontrivial,
-        "rule": ("full product: 18 record kinds x 4 creation paths x argument representations x optional-argument "
+        "rule": ("full product: 18 record kinds x 5 creation paths (typed factory, element convenience method, new_record with dict / pair list / string keys) x argument representations x optional-argument "
                  "masks, each followed by every sequence of <= %d follow-up additions (formal attribute x {same, "
                  "different, unparsable} x representation x add_attributes dict/list/set_time); plus %d literal-vs-"
                  "native cases; a case is distinct by its call sequence; non-trivial = ran to the end in lock-step "
